@@ -288,12 +288,13 @@ def gen_spec(rng):
     token = "ETH" if rng.random() < 0.8 else "BTC"
     now = 60 * rng.randint(1, 200)
     instrs = L.gen_book(rng, token, now, crossed=True)
-    cash = rng.choice((Decimal(1000), Decimal(50), Decimal(1), Decimal("0.1"), Decimal("0.002"), Decimal(0)))
+    cash = rng.choice((Decimal(100000), Decimal(100000), Decimal(1000), Decimal(1000), Decimal(50), Decimal(1), Decimal("0.1"), Decimal("0.002"), Decimal(0)))
     positions = []
     held = {}
     for i in instrs:
         if rng.random() < 0.45:
-            a = Decimal(rng.randint(1, 80)) if token == "ETH" else Decimal(rng.randint(1, 800)) / 10
+            top = rng.choice((80, 80, 5000))
+            a = Decimal(rng.randint(1, top)) if token == "ETH" else Decimal(rng.randint(1, 10 * top)) / 10
             positions.append({"name": i["name"], "expiry": i["expiry"], "strike": i["strike"], "kind": i["kind"], "amount": str(a),
                               "avgBuy": str(Decimal(rng.randint(1, 900)) / 10000), "buyAmt": str(a + rng.randint(0, 5)),
                               "avgSell": str(Decimal(rng.randint(0, 900)) / 10000), "sellAmt": str(rng.randint(0, 5))})
@@ -302,6 +303,8 @@ def gen_spec(rng):
     for _ in range(rng.randint(1, 8)):
         op, tag = L.gen_trade(rng, instrs, token, positions=held)
         ops.append((op, tag))
+        if op["type"] == "buy" and isinstance(op["amount"], (int, Decimal)) and op["amount"] >= 1:
+            held[op["name"]] = held.get(op["name"], Decimal(0)) + Decimal(op["amount"])   # optimistic: later sells aim at it
     return {"instrs": instrs, "now": now, "token": token, "wallet": "5", "cash": str(cash), "positions": positions, "ops": ops}
 
 
